@@ -338,6 +338,15 @@ fn generate_server_role(rng: &mut Rng, thorough: bool, cut_matrix: bool) -> Vec<
         b.extend(raw_frame(0x4242, &[4, 0]));
         b.extend(raw_frame(7, &raw_frame(4, &[])));
         cs.push(c(3, b, "grease-and-unknown-after-settings"));
+        // SETTINGS, then -- in a later packet, with another event of the connection in between -- a GREASE
+        // frame: a cut on a frame boundary leaves nothing in progress, the stream stays valid (C13, C05)
+        {
+            let mut b = ok.clone();
+            b.extend(raw_frame(0x21 + 0x1f, &[9, 8, 7, 6]));
+            for inj in 1..5u64 {
+                cs.push(Case::new(611, vec![vec![3, 0, inj], b2a(&b), vec![ok.len() as u64]], "grease-after-settings-and-an-event"));
+            }
+        }
         // unknown frame before SETTINGS (skipped by the frame reader) then SETTINGS
         let mut b = vec![0u8];
         b.extend(raw_frame(0x4242, &[1, 0, 4, 0]));
